@@ -67,8 +67,9 @@ func (p *Parser) parseNext() error {
 
 	c := p.data[p.pos]
 
-	// Check for potential operator (starts with letter)
-	if isLetter(c) {
+	// Check for potential operator (starts with letter). The keywords true,
+	// false and null are objects, so they are operands like any other.
+	if isLetter(c) && !isKeywordObject(p.regularToken()) {
 		return p.parseOperator()
 	}
 
@@ -162,13 +163,9 @@ func (p *Parser) parseOperand() (core.Object, error) {
 
 	// Boolean or null
 	if c == 't' || c == 'f' || c == 'n' {
-		// Check if it's actually an operator
-		// Peek ahead to see if followed by whitespace
-		end := p.pos
-		for end < len(p.data) && !isWhitespace(p.data[end]) {
-			end++
-		}
-		token := string(p.data[p.pos:end])
+		// The keyword ends at white space or at a delimiter ("[true]", "<</K null>>")
+		token := p.regularToken()
+		end := p.pos + len(token)
 
 		switch token {
 		case "true":
@@ -184,6 +181,21 @@ func (p *Parser) parseOperand() (core.Object, error) {
 	}
 
 	return nil, fmt.Errorf("unexpected character at position %d: %c", p.pos, c)
+}
+
+// regularToken returns the run of regular characters (neither white space nor
+// delimiter) that starts at the current position, without consuming it.
+func (p *Parser) regularToken() string {
+	end := p.pos
+	for end < len(p.data) && !isWhitespace(p.data[end]) && !isDelimiter(p.data[end]) {
+		end++
+	}
+	return string(p.data[p.pos:end])
+}
+
+// isKeywordObject reports whether token is one of the keyword objects.
+func isKeywordObject(token string) bool {
+	return token == "true" || token == "false" || token == "null"
 }
 
 // parseNumber parses an integer or real number operand.
